@@ -76,6 +76,11 @@ InitOver(shapes, size) == \E sh \in shapes : \E lb \in LibIds :
 MCInit == InitOver(ShapesQuick, "quick") /\ InitRest
 MCInitTiny == InitOver(ShapesTiny, "tiny") /\ InitRest
 MCInitFull == InitOver(ShapesFull(0), "deep") /\ InitRest
+\* export of the thorough tier: every sequence with one of the two residue-id offsets, pairs of requests for the full library
+Lo(n) == CASE n = 1 -> <<1>> [] n = 2 -> <<1, 2>> [] n = 3 -> <<1, 2, 3>>
+Hi(n) == CASE n = 1 -> <<4>> [] n = 2 -> <<3, 4>> [] n = 3 -> <<2, 3, 4>>
+ShapesMid(u) == {SR(sh.sq, IF sh.sq[1] = "ALA" THEN Lo(Len(sh.sq)) ELSE Hi(Len(sh.sq))) : sh \in ShapesFull(u)}
+MCInitMid == InitOver(ShapesMid(0), "quick") /\ InitRest
 
 \* the flags of the open findings follow the ledger (the driver passes them in the environment)
 EnvOn(name) == name \in DOMAIN IOEnv /\ IOEnv[name] = "1"
